@@ -121,7 +121,11 @@ Definition instant_cmp (op : cmpop) (i j : Z) : Z :=
           end).
 
 (* --- ISO text ------------------------------------------------------------------------------ *)
-Definition digit_char (d : Z) : ascii := ascii_of_nat (48 + Z.to_nat d).
+Definition digit_char (d : Z) : ascii :=
+  match d with
+  | 0 => "0" | 1 => "1" | 2 => "2" | 3 => "3" | 4 => "4"
+  | 5 => "5" | 6 => "6" | 7 => "7" | 8 => "8" | 9 => "9" | _ => "?"
+  end%char.
 Fixpoint pad (k : nat) (z : Z) : string :=
   match k with
   | O => EmptyString
@@ -132,9 +136,11 @@ Fixpoint pad (k : nat) (z : Z) : string :=
 Definition iso_text (y m d h mi s us : Z) : string :=
   pad 4 y ++ "-" ++ pad 2 m ++ "-" ++ pad 2 d ++ "T" ++ pad 2 h ++ ":" ++ pad 2 mi ++ ":" ++ pad 2 s
   ++ (if us =? 0 then "" else "." ++ pad 6 us).
+(* (the time of day is split once: the kernel lane evaluates this for every result) *)
 Definition show_instant (i : Z) : string :=
   let '(y, m, d) := date_of i in
-  iso_text y m d (get_hour i) (get_minute i) (get_second i) (get_micro i).
+  let t := tod_of i in
+  iso_text y m d (t / 3600000000) ((t / 60000000) mod 60) ((t / 1000000) mod 60) (t mod 1000000).
 
 Definition digit_val (c : ascii) : option Z :=
   let n := nat_of_ascii c in
